@@ -1,8 +1,12 @@
 import ExoVerif.Driver.Common
 import ExoVerif.Model.Genesis
+import ExoVerif.Model.GenesisAssets
 /- driver for the C18 correspondence: the harness describes the cross-module core of the real state before the
    export (`gen.und`, `gen.q`, `gen.cur`, `gen.prev`, `gen.rev`, `gen.val`), `gen.roundtrip` prints what the model says the
-   re-imported chain holds (undelegations with hold counts, dogfood queues, reverse key lookups, validator set). -/
+   re-imported chain holds (undelegations with hold counts, dogfood queues, reverse key lookups, validator set).
+   x/assets: the four prefix stores read raw before the export (`gen.ap` params, `gen.ac` chain, `gen.at` token, `gen.ad`
+   staker row, `gen.ao` operator pool row — each with its store key); `gen.assets` prints the verdict of
+   validateAssets on exportAssets and the stores initAssets rebuilds from it. -/
 namespace ExoVerif.Driver.Genesis
 open ExoVerif.Genesis ExoVerif.Driver
 
@@ -21,19 +25,53 @@ def showCore (s : Core) : String :=
   let vs := sortStrings (s.vals.map (fun v => s!"{v.1} {v.2}"))
   "und=[" ++ joinWith "," us ++ "] q=[" ++ joinWith "," qs ++ "] rev=[" ++ joinWith "," rs ++ "] val=[" ++ joinWith "," vs ++ "]"
 
-def step (s : Core) (w : List String) : Core × String :=
-  match w with
-  | ["gen.reset"] => (empty, "ok")
-  | ["gen.und", id, c, a, h] => ({ s with unds := s.unds ++ [⟨id, parseInt! c, parseInt! a, parseInt! h⟩] }, "ok")
-  | ["gen.q", p, e, it] => ({ s with queues := s.queues ++ [⟨parseNat! p, parseInt! e, it, []⟩] }, "ok")
-  | ["gen.q", p, e, it, recs] => ({ s with queues := s.queues ++ [⟨parseNat! p, parseInt! e, it, recs.splitOn "+"⟩] }, "ok")
-  | ["gen.cur", op, cons] => ({ s with curKeys := s.curKeys ++ [(op, cons)] }, "ok")
-  | ["gen.prev", op, cons] => ({ s with prevKeys := s.prevKeys ++ [(op, cons)] }, "ok")
-  | ["gen.val", cons, pw] => ({ s with vals := s.vals ++ [(cons, parseInt! pw)] }, "ok")
-  | ["gen.rev", cons, op] => ({ s with reverse := s.reverse ++ [(cons, op)] }, "ok")
-  | ["gen.roundtrip"] => (s, showCore (roundtrip codePrefixes 0 0 s))
-  | _ => (s, "bad-op")
+def emptyAssets : Assets := { params := ⟨"-", "-"⟩, chains := [], tokens := [], deposits := [], opAssets := [] }
 
-def main : IO Unit := runDriver empty step
+def showAssets (a : Assets) : String :=
+  let cs := a.chains.map (fun p => s!"{p.1}:{p.2.lzID}:{p.2.name}:{p.2.addrLen}:{p.2.rest}")
+  let ts := a.tokens.map (fun p => s!"{p.1}:{p.2.lzID}:{p.2.addr}:{p.2.decimals}:{p.2.total}:{p.2.rest}")
+  let ds := a.deposits.map (fun p => s!"{p.1}:{p.2.total}:{p.2.withdrawable}:{p.2.pending}")
+  let os := a.opAssets.map (fun p => s!"{p.1}:{p.2.total}:{p.2.pending}:{p.2.totalShare}:{p.2.opShare}")
+  s!"params={a.params.gateway}:{a.params.topic} chains=[" ++ joinWith "," cs ++ "] tokens=[" ++ joinWith "," ts ++ "] dep=[" ++
+    joinWith "," ds ++ "] ops=[" ++ joinWith "," os ++ "]"
+
+/-- the client chain name travels hex-encoded ("-" = empty): only its emptiness matters to the model -/
+def nameOf (h : String) : String := if h == "-" then "" else h
+def showName (a : Assets) : Assets :=
+  { a with chains := a.chains.map (fun p => (p.1, { p.2 with name := if p.2.name == "" then "-" else p.2.name })) }
+
+def assetsRoundtrip (a : Assets) : String :=
+  let d := exportAssets a
+  let v := if validateAssets d then "true" else "false"
+  match initAssets d with
+  | none => s!"validate={v} init=panic"
+  | some a' => s!"validate={v} init=ok " ++ showAssets (showName a')
+
+def step (st : Core × Assets) (w : List String) : (Core × Assets) × String :=
+  let s := st.1
+  let a := st.2
+  match w with
+  | ["gen.reset"] => ((empty, emptyAssets), "ok")
+  | ["gen.und", id, c, am, h] => (({ s with unds := s.unds ++ [⟨id, parseInt! c, parseInt! am, parseInt! h⟩] }, a), "ok")
+  | ["gen.q", p, e, it] => (({ s with queues := s.queues ++ [⟨parseNat! p, parseInt! e, it, []⟩] }, a), "ok")
+  | ["gen.q", p, e, it, recs] => (({ s with queues := s.queues ++ [⟨parseNat! p, parseInt! e, it, recs.splitOn "+"⟩] }, a), "ok")
+  | ["gen.cur", op, cons] => (({ s with curKeys := s.curKeys ++ [(op, cons)] }, a), "ok")
+  | ["gen.prev", op, cons] => (({ s with prevKeys := s.prevKeys ++ [(op, cons)] }, a), "ok")
+  | ["gen.val", cons, pw] => (({ s with vals := s.vals ++ [(cons, parseInt! pw)] }, a), "ok")
+  | ["gen.rev", cons, op] => (({ s with reverse := s.reverse ++ [(cons, op)] }, a), "ok")
+  | ["gen.roundtrip"] => (st, showCore (roundtrip codePrefixes 0 0 s))
+  | ["gen.ap", gw, topic] => ((s, { a with params := ⟨gw, topic⟩ }), "ok")
+  | ["gen.ac", k, lz, nm, al, rest] =>
+    ((s, { a with chains := a.chains ++ [(k, ⟨parseNat! lz, nameOf nm, parseNat! al, rest⟩)] }), "ok")
+  | ["gen.at", k, lz, addr, dec, tot, rest] =>
+    ((s, { a with tokens := a.tokens ++ [(k, ⟨parseNat! lz, addr, parseNat! dec, rest, parseInt! tot⟩)] }), "ok")
+  | ["gen.ad", k, sk, asset, t, wd, p] =>
+    ((s, { a with deposits := a.deposits ++ [(k, ⟨sk, asset, parseInt! t, parseInt! wd, parseInt! p⟩)] }), "ok")
+  | ["gen.ao", k, o, asset, t, p, ts, os] =>
+    ((s, { a with opAssets := a.opAssets ++ [(k, ⟨o, asset, parseInt! t, parseInt! p, parseInt! ts, parseInt! os⟩)] }), "ok")
+  | ["gen.assets"] => (st, assetsRoundtrip a)
+  | _ => (st, "bad-op")
+
+def main : IO Unit := runDriver (empty, emptyAssets) step
 
 end ExoVerif.Driver.Genesis
